@@ -1,4 +1,4 @@
 (* Extract_loopmf.v — extraction of the loop-detection / Max-Forwards model (ExtrOcamlBasic only). *)
 Require Import ExtrOcamlBasic.
 Require Import SquidV.Bytes SquidV.HopModel SquidV.LoopmfModel.
-Extraction "m_loopmf.ml" handle cfg_of loop_detected parse_offset via_value fwd_via is_substr dec_N this_cache2.
+Extraction "m_loopmf.ml" handle cfg_of loop_detected parse_offset via_value fwd_via is_substr str_list_is_substr mf_first dec_N this_cache2.
